@@ -435,8 +435,9 @@ class ConfigNode(metaclass=ConfigNodeMeta):
         self._delete = other._delete
         if other._safe is not None:
             self._safe = notnone_or(self._safe, True) and other._safe
-        if other._default_safe is not None:
-            self._default_safe = notnone_or(other._default_safe, True) and other._default_safe
+        if other._implicit_safe is False:
+            self._implicit_safe = False
+        self._default_safe = notnone_or(self._default_safe, False) and notnone_or(other._default_safe, False)
         self._metadata = { **self._metadata, **other._metadata }
         if allow_promotions:
             ret = self._maybe_promote(other)
@@ -458,8 +459,9 @@ class ConfigNode(metaclass=ConfigNodeMeta):
         '''
         if other._safe is not None:
             self._safe = notnone_or(self._safe, True) and other._safe
-        if other._default_safe is not None:
-            self._default_safe = notnone_or(other._default_safe, True) and other._default_safe
+        if other._implicit_safe is False:
+            self._implicit_safe = False
+        self._default_safe = notnone_or(self._default_safe, False) and notnone_or(other._default_safe, False)
         self._metadata = { **other._metadata, **self._metadata }
         if allow_promotions:
             return self._maybe_promote(other)
